@@ -707,25 +707,40 @@ fn check_build<T: El>(items: &[(u8, u8)], obs: &mut Obs) -> CheckResult {
 fn check_wrap<T: El>(init: &[(u8, u8)], adds: &[(u8, u8)], div: u8, fail_key: Option<u8>, obs: &mut Obs) -> CheckResult {
   let div = div.max(1);
 
-  // ---- OneOrMany: default()/from(Vec) then push
-  let mut many: OneOrMany<T> = if init.is_empty() {
-    OneOrMany::default()
-  } else {
-    OneOrMany::from(make_all::<T>(init))
-  };
-  let mut many_want: Vec<(u8, u8)> = init.to_vec();
-  one_or_many_battery(&many, &many_want, "OneOrMany start", obs)?;
-  for (i, (k, v)) in adds.iter().enumerate() {
-    let via = format!("push #{i} of {:?} onto {:?}", T::model(*k, *v), model_all::<T>(&many_want));
-    if let Err(p) = catch(|| many.push(T::make(*k, *v))) {
-      vfail!(obs, "one-or-many-push-panics", "{via} panicked: {}", p.msg);
-      return Ok(());
+  // ---- OneOrMany: default()/from(Vec) then push. The Vec a caller hands to `From<Vec<T>>` may own spare capacity
+  // (`with_capacity`, a buffer that was filled and cleared); the value built from it is the same list.
+  let starts: usize = 3;
+  for start in 0..starts {
+    let (mut many, how): (OneOrMany<T>, &str) = match start {
+      0 if init.is_empty() => (OneOrMany::default(), "default()"),
+      0 => (OneOrMany::from(make_all::<T>(init)), "from(Vec)"),
+      1 => {
+        let mut v: Vec<T> = Vec::with_capacity(init.len() + 4);
+        v.extend(make_all::<T>(init));
+        (OneOrMany::from(v), "from(Vec::with_capacity)")
+      }
+      _ => {
+        let mut v: Vec<T> = make_all::<T>(adds);
+        v.extend(make_all::<T>(init));
+        v.clear();
+        v.extend(make_all::<T>(init));
+        (OneOrMany::from(v), "from(reused buffer)")
+      }
+    };
+    let mut many_want: Vec<(u8, u8)> = init.to_vec();
+    one_or_many_battery(&many, &many_want, &format!("OneOrMany start {how}"), obs)?;
+    for (i, (k, v)) in adds.iter().enumerate() {
+      let via = format!("{how}: push #{i} of {:?} onto {:?}", T::model(*k, *v), model_all::<T>(&many_want));
+      if let Err(p) = catch(|| many.push(T::make(*k, *v))) {
+        vfail!(obs, "one-or-many-push-panics", "{via} panicked: {}", p.msg);
+        return Ok(());
+      }
+      many_want.push((*k, *v));
+      if many_want.len() == 1 {
+        obs.label(if start == 0 { "push-onto-empty" } else { "push-onto-empty-with-capacity" });
+      }
+      one_or_many_battery(&many, &many_want, &via, obs)?;
     }
-    many_want.push((*k, *v));
-    if many_want.len() == 1 {
-      obs.label("push-onto-empty");
-    }
-    one_or_many_battery(&many, &many_want, &via, obs)?;
   }
 
   // ---- OneOrSet: needs a non-empty duplicate-free start
